@@ -52,6 +52,7 @@ func vEntity(name string, gen int, rev int64) (*supervisor.ObjectEntity, *vPipe)
 
 func verifC11_TrafficController() {
 	tc := &TrafficController{mutex: &sync.Mutex{}, namespaces: map[string]*Namespace{}}
+	verifInitMaps(tc) // maps a bypassed constructor would have made
 	const ns = "default"
 	ea, pa := vEntity("a", 1, 1)
 	eb, _ := vEntity("b", 1, 1)
